@@ -1,6 +1,7 @@
 package tree
 
 import (
+	"regexp"
 	"strconv"
 	"strings"
 
@@ -128,6 +129,9 @@ func (cs *CommandStatement) split(str string) []*CommandStatementElement {
 	return elements
 }
 
+// decimalLiteral matches the numbers of the Antlr grammar (NUMBER), optionally negative.
+var decimalLiteral = regexp.MustCompile(`^-?[0-9]+(\.[0-9]+)?$`)
+
 func valueFromCommandText(commandText string) *variable.Value {
 	if commandText == "true" {
 		return variable.NewBoolean(true)
@@ -136,6 +140,9 @@ func valueFromCommandText(commandText string) *variable.Value {
 	}
 
 	if commandText[0] == '+' { // see Antlr grammar, numbers don't start with + even though Go would be happy to parse them
+		return variable.NewString(commandText)
+	}
+	if !decimalLiteral.MatchString(commandText) { // strconv would also accept inf, nan, 0x10, 1e3, 1_000...
 		return variable.NewString(commandText)
 	}
 	numberValue, err := strconv.ParseFloat(commandText, 64)
